@@ -210,6 +210,20 @@ def D14b():
     return None
 
 
+def D15():
+    from metapype.model import metapype_io
+    root = Node("a"); root.nsmap = {"p": "u", "q": "v"}
+    child = Node("b"); child.nsmap = {"q": "v", "p": "u"}          # the same bindings, listed in another order
+    root.children.append(child); child.parent = root
+    t1 = metapype_io.to_json(root)
+    back = metapype_io.from_json(t1)
+    if list(back.children[0].nsmap.items()) != [("q", "v"), ("p", "u")]:
+        return f"child nsmap reloaded as {list(back.children[0].nsmap.items())}"
+    if metapype_io.to_json(back) != t1:
+        return "re-serialising the loaded tree gives a different JSON text"
+    return None
+
+
 ALL = {k: v for k, v in list(globals().items()) if k.startswith("D") and callable(v)}
 
 
